@@ -3,6 +3,7 @@ package main
 import (
 	"encoding/binary"
 	"encoding/json"
+	"errors"
 	"fmt"
 	"net"
 	"os"
@@ -54,17 +55,35 @@ type history struct {
 	nProbes   int
 	known     []rangeT // every range used so far (live or removed), in order of first use
 	flags     map[string]bool
+	scribble  bool // overwrite the caller's slices after every call: the filter must not keep them by reference
+}
+
+// after the call returned the argument slices belong to the caller again
+func (h *history) scribbleOver(bs ...[]byte) {
+	if !h.scribble {
+		return
+	}
+	for _, b := range bs {
+		for i := range b {
+			b[i] ^= 0xa5
+		}
+	}
 }
 
 func newHistory(e *hk.Env, r *hk.Rng) *history {
-	return &history{e: e, r: r, f: netutil.NewIPv4Filter(), flags: map[string]bool{}}
+	h := &history{e: e, r: r, f: netutil.NewIPv4Filter(), flags: map[string]bool{}}
+	if r.Chance(30) {
+		h.scribble = true
+		h.flags["histories_scribbling_over_arguments_after_the_call"] = true
+	}
+	return h
 }
 
 func errCode(err error) int {
-	switch err {
-	case nil:
+	switch {
+	case err == nil:
 		return 0
-	case netutil.ErrInvalidIPv4CIDR:
+	case errors.Is(err, netutil.ErrInvalidIPv4CIDR): // a wrapped ErrInvalidIPv4CIDR is still that error
 		return 1
 	}
 	return 2
@@ -101,22 +120,28 @@ func (h *history) callContains(ip []byte) (code int) {
 }
 
 func (h *history) rawAdd(ip, mask []byte) int {
+	tok := fmt.Sprintf("A:%s:%s:", hk.Hx(ip), hk.Hx(mask))
 	c := h.callAdd(ip, mask)
-	h.toks = append(h.toks, fmt.Sprintf("A:%s:%s:%d", hk.Hx(ip), hk.Hx(mask), c))
+	h.scribbleOver(ip, mask)
+	h.toks = append(h.toks, tok+fmt.Sprint(c))
 	h.nOps++
 	return c
 }
 
 func (h *history) rawRemove(ip, mask []byte) int {
+	tok := fmt.Sprintf("R:%s:%s:", hk.Hx(ip), hk.Hx(mask))
 	c := h.callRemove(ip, mask)
-	h.toks = append(h.toks, fmt.Sprintf("R:%s:%s:%d", hk.Hx(ip), hk.Hx(mask), c))
+	h.scribbleOver(ip, mask)
+	h.toks = append(h.toks, tok+fmt.Sprint(c))
 	h.nOps++
 	return c
 }
 
 func (h *history) probe(ip []byte) {
+	tok := fmt.Sprintf("C:%s:", hk.Hx(ip))
 	c := h.callContains(ip)
-	h.toks = append(h.toks, fmt.Sprintf("C:%s:%d", hk.Hx(ip), c))
+	h.scribbleOver(ip)
+	h.toks = append(h.toks, tok+fmt.Sprint(c))
 	h.nProbes++
 }
 
@@ -164,15 +189,19 @@ func u32b(x uint32) []byte {
 func (h *history) probeRange(rg rangeT) {
 	for _, a := range []uint32{rg.first(), rg.last(), rg.first() - 1, rg.last() + 1} {
 		b := u32b(a)
+		b16 := append([]byte{}, net.IP(b).To16()...)
 		h.probe(b)
-		h.probe(net.IP(b).To16())
+		h.probe(b16)
 	}
 }
 
 // addresses that are not IPv4: real IPv6, IPv4-compatible (::a.b.c.d), almost-mapped, odd lengths
 func (h *history) probeNonV4(rg rangeT) {
 	a := u32b(rg.first())
-	switch h.r.Intn(6) {
+	switch h.r.Intn(7) {
+	case 6:
+		h.probe(nil) // Contains(nil)
+		h.e.Count("probes_nil", 1)
 	case 0:
 		ip := make([]byte, 16)
 		ip[0], ip[1], ip[2], ip[3] = 0x20, 0x01, 0x0d, 0xb8
